@@ -27,6 +27,25 @@ func init() {
 		})
 	}
 	regProp(&propDef{
+		id:   "C14",
+		gen:  func(seed uint64, th bool) *Plan { return genDbPlan(seed, th) },
+		chk:  newSeqChecker,
+		rule: "2-4 connections (some opened late, some reconnecting) SELECT among databases 0,1,2,15 and invalid indexes, run data commands, transactions, FLUSHDB/FLUSHALL, DBSIZE, KEYS, CLIENT SETNAME/GETNAME, taking turns as the tape decides; after each command the reply and the stored state of all 16 databases are compared with the model; at the end every connection writes a marker into its selected database and an observer reads every database; non-trivial = a flush was issued while another connection had the flushed database selected, and at least 2 databases held keys; distinct = distinct scheduler event sequence",
+		nontrivial: func(res *RunResult) bool {
+			return res.Extra["flush-with-others"] >= 1 && res.Extra["dbs-used"] >= 2
+		},
+		quickRuns:       3000,
+		thoroughRuns:    200000,
+		quickSeconds:    60,
+		thoroughSeconds: 900,
+		level:           "exploration",
+		explanation:     "Turn-taking multi-connection histories with per-connection sessions in the model; flushes while other connections are inside MULTI or hold WATCHes are included, flushes while others are blocked are part of C11/C12's concurrent workloads.",
+		assumptions: []string{
+			"the reference model's per-connection session (selected database, name, MULTI queue, watches) follows the Redis 7 documentation",
+			"SELECT queued inside MULTI is not generated: Redis applies it when EXEC runs, the emulator binds each queued command to the database selected when it was queued (recorded as a relaxation in DESIGN.md, the property text does not cover it)",
+		},
+	})
+	regProp(&propDef{
 		id:   "C08",
 		gen:  func(seed uint64, th bool) *Plan { return genConcPlan("C08", seed, th) },
 		chk:  newLinChecker,
